@@ -268,10 +268,21 @@ Print Assumptions C16_jwt_hs_other_key_rejected.
 
 (** * JWT time, claims, header *)
 
+(** [check_time] models [time.Unix]'s int64 wrap and [Add]'s saturation
+    explicitly; for claim times clear of the wrap ([unix_in_range]: |sec| <= 2^62,
+    which every real token satisfies) it is the linear condition. *)
 Theorem C16_jwt_time : forall c now,
+  unix_in_range (c_iat c) -> unix_in_range (c_exp c) ->
   check_time c now = None <-> c_iat c * sec_ns - grace_ns < now <= c_exp c * sec_ns.
 Proof. exact check_time_iff. Qed.
 Print Assumptions C16_jwt_time.
+
+Theorem C16_key_validity_window : forall M (k : @pubkey M) now,
+  unix_in_range (pk_nvb k) -> unix_in_range (pk_nva k) ->
+  key_valid k now = None <->
+  (pk_nvb k <= 0 \/ pk_nvb k * sec_ns <= now) /\ now <= pk_nva k * sec_ns.
+Proof. exact @key_valid_iff. Qed.
+Print Assumptions C16_key_validity_window.
 
 Theorem C16_jwt_claims_iff : forall c t,
   check_claims c t = None <->
@@ -297,9 +308,9 @@ Theorem C16_rs256_key_checked :
     h_alg (t_header t) = alg_rs256 /\
     card = pre ++ k :: post /\ Forall (fun k' => pk_id k' <> h_kid (t_header t)) pre /\
     pk_id k = h_kid (t_header t) /\ pk_type k = key_type_rsa /\
-    (pk_nvb k <= 0 \/ pk_nvb k * sec_ns <= now) /\ now <= pk_nva k * sec_ns /\
+    key_valid k now = None /\
     parse_key (pk_mat k) = Some rk /\ rsa_verify rk (t_payload t) (t_sig t) = true /\
-    c_iat (t_claims t) * sec_ns - grace_ns < now <= c_exp (t_claims t) * sec_ns.
+    check_time (t_claims t) now = None.
 Proof. exact rs256_key_checked. Qed.
 Print Assumptions C16_rs256_key_checked.
 
@@ -330,6 +341,7 @@ Theorem C16_rs256_expired_key_rejected :
          (card : list (@pubkey M)) now tok t k,
   decode parse_header parse_claims b64_decode_canon tok = JOk t ->
   find_key card (h_kid (t_header t)) = Some k ->
+  unix_in_range (pk_nvb k) -> unix_in_range (pk_nva k) ->
   pk_nva k * sec_ns < now ->
   is_err (rs_verify parse_header parse_claims b64_decode_canon parse_key rsa_verify card now tok).
 Proof.
@@ -497,6 +509,16 @@ Example C16_key_lookup_exact :
   rs_verifier (fun m : bool * bool => if fst m then Some (snd m) else None) (fun rk _ _ => rk) card
     (mkT (mkH alg_rs256 typ_jwt [108; 97]%N) (mkC [] [] [] 100 0 [] []) [] []) 5 = None.
 Proof. vm_compute. repeat split. Qed.
+
+(** Claim times at the int64 wrap: what the code (and the model) do there. *)
+Example C16_jwt_time_wraps :
+  check_time (mkC [] [] [] (Jwt.two63 - 1) 0 [] []) 1700000000000000000 = Some EExpired /\
+  check_time (mkC [] [] [] 1800000000 (Jwt.two63 - 1) [] []) 1700000000000000000 = None /\
+  check_time (mkC [] [] [] (Jwt.two63 - 1 - unix_to_internal) 0 [] []) 1700000000000000000 = None /\
+  check_time (mkC [] [] [] (Jwt.two63 - unix_to_internal) 0 [] []) 1700000000000000000 = Some EExpired /\
+  check_time (mkC [] [] [] 1800000000 (- Jwt.two63) [] []) 1700000000000000000 = None /\
+  check_time (mkC [] [] [] (- Jwt.two63) (- Jwt.two63) [] []) 0 = Some EExpired.
+Proof. exact check_time_wraps. Qed.
 
 (** Session and time-token boundaries on a concrete instance. *)
 Example C16_session_boundary :
